@@ -6,6 +6,7 @@ from .common import *  # noqa
 from mirsym.driver import jsonable
 from mirsym.lib import DT_MIN, DT_MAX, dt_bounds_axioms, mk_datetime, TD_MAX_NS
 from .c09 import CONF_STUB
+from mirsym.lib import HUGE as HUGE_F
 
 MAX_S = (2 ** 63 - 1) // 1000      # to_duration's own gate: |v| <= i64::MAX / 1000 seconds
 U = ('m', 's')
@@ -36,6 +37,44 @@ def is_seconds(ent):
         else:
             c = b_and(c, b_not(p))
     return c
+
+
+class ToDurationFloat(Harness):
+    name = 'datetime.to_duration.float'
+    props = ('C14', 'C04')
+    entry = 'to_duration'
+    describe = 'to_duration on a Number whose value is an arbitrary float (finite, infinite or NaN) of seconds: refused or converted, never a panic'
+    expect_classes = ['Result::Ok', 'Result::Err']
+    bounds = ['NaN, +-infinity, and finite floats with |v| <= 2^52 s; only panic-reachability and the range gate are decided']
+    _concrete = None
+
+    def build(self, ex, I):
+        from mirsym.lib import inf_of
+        v = I.real('f_val')
+        nan = I.bool('f_nan')
+        # finite floats up to 2^52 s (142 million years) are in the claim: beyond that the rounding of `v * 1000` decides
+        # whether chrono's millisecond range is exceeded, which the value model of floats cannot settle
+        a = z3.If(v >= 0, v, -v)
+        ex.assume(z3.Or(nan, a <= 2 ** 52, a >= HUGE_F))
+        return [ref(number(floatnum(F64(v, nan, inf_of(v))), secs_dim()))], {'v': v, 'nan': nan}
+
+    def post(self, ex, ctx, outcome):
+        r = deref_all(outcome[1])
+        if is_ok(r):
+            return [('a NaN number of seconds is not a duration', z3.Not(zbool(ctx['nan'])))]
+        return []
+
+    def native(self, inputs, label):
+        nan = bool(inputs.get('f_nan'))
+        txt = 'ln(-1)' if nan else ('exp(1000)' if abs(Fraction(inputs['f_val'])) >= 2 ** 1024 else '%s * 1.0e0' % frac_text(Fraction(inputs['f_val'])))
+        return [{'mode': 'query', 'text': 'now + (%s) s' % txt}, {'mode': 'query', 'text': 'now - (%s) s' % txt},
+                {'mode': 'query', 'text': '#2020-01-01# + (%s) s' % txt}]
+
+    def judge(self, inputs, label, obs):
+        bad = [o for o in obs if o.get('outcome') == 'panic' or o.get('render_panic')]
+        if bad:
+            return True, 'date + float seconds panics: %s' % (bad[0].get('panic') or bad[0].get('render_panic'))
+        return False, 'no panic: %s' % [str(o.get('display') or o.get('error'))[:50] for o in obs]
 
 
 class ToDuration(Harness):
@@ -456,7 +495,7 @@ class OffsetConversion(Harness):
 
 
 def harnesses(tier):
-    hs = [ToDuration(), FromDuration(), OffsetConversion()]
+    hs = [ToDuration(), ToDurationFloat(), FromDuration(), OffsetConversion()]
     combos = [('Fixed', 'Fixed'), ('Fixed', 'Timezone'), ('Timezone', 'Fixed'), ('Timezone', 'Timezone')]
     for l, r in combos:
         hs.append(DateRoundTrip('add_sub', l, r))
